@@ -49,7 +49,13 @@ func judgeC06(role string, steps []string, w *World, res *MonitorResult) {
 					cause = "other:" + strings.Join(t, ">")
 				}
 				// the reason the node gave up is part of the signature: a new reason is a new violation
-				res.addFinding(fmt.Sprintf("C06/%s/reveal-with-payment/%s/%s", role, cause, lastErr),
+				sig := fmt.Sprintf("C06/%s/reveal-with-payment/%s/%s", role, cause, lastErr)
+				if cause == "crash-in-pay" {
+					// the payment is unknown to the record after such a crash: whatever later makes the
+					// taker give up (timeout, window, watcher error, peer cancel) reveals the key
+					sig = fmt.Sprintf("C06/%s/reveal-with-payment/%s", role, cause)
+				}
+				res.addFinding(sig,
 					fmt.Sprintf("%s sent coop_close (key revealed) while its claim payment is %s", role, o.A["pay"]),
 					map[string]interface{}{"scenario": scenarioKey(steps)})
 			}
